@@ -65,7 +65,7 @@ def gen_case(run_seed: int, index: int, tier: str) -> dict:
     rng = core.rng_for(run_seed)
     metric = rng.choice(["ber", "bler", "bler", "pair"])
     cplx = rng.random() < 0.25
-    L = rng.choice([1, 2, 3, 4, 6, 8, 12, 16, 24, 30])
+    L = rng.choice([1, 2, 3, 4, 6, 8, 12, 16, 24, 30, 30, 64, 100, 128, 255, 1000])
     divisors = [d for d in range(1, L + 1) if L % d == 0]
     block = rng.choice(divisors + [None]) if metric != "ber" else None
     case = {
@@ -78,7 +78,7 @@ def gen_case(run_seed: int, index: int, tier: str) -> dict:
         "alias": rng.choice(BLER_ALIASES),
         "regname": rng.choice(["bler", "fer", "ser"]),
     }
-    npool = rng.randrange(2, 14)
+    npool = rng.randrange(2, 14) if L <= 64 else rng.randrange(2, 6)
     width = L * (2 if cplx else 1)
     X, Y = [], []
     for _ in range(npool):
@@ -117,8 +117,8 @@ def gen_case(run_seed: int, index: int, tier: str) -> dict:
             if nd and metric != "ber":
                 ops.append(["reject", rng.choice(nd), rng.randrange(npool)])
         else:
-            rows = [rng.randrange(npool) for _ in range(rng.choice([1, 1, 2, 3, 5, 8]))]
-            layout = rng.choice(["2d", "2d", "3d", "flat"])
+            rows = [rng.randrange(npool) for _ in range(rng.choice([1, 1, 2, 3, 5, 8, 17, 64]))]
+            layout = rng.choice(["2d", "2d", "3d", "flat", "strided"])
             ops.append(["update", rows, layout])
     if rng.random() < (0.004 if tier == "quick" else 0.002):
         # long stream: one huge update, then many small ones (float32 accumulation drift would show)
@@ -145,6 +145,10 @@ def _mk_tensor(case, rows, which, layout):
         for a in (2, 3, 4):
             if L % a == 0:
                 return t.reshape(len(rows), a, L // a)
+    if layout == "strided":  # the same values behind a non-contiguous view
+        big = torch.zeros(t.shape[0], 2 * t.shape[1], dtype=t.dtype)
+        big[:, ::2] = t
+        return big[:, ::2]
     return t
 
 
